@@ -693,4 +693,4 @@ def check(ctx):
     r9_doc_layer_hash_order(ctx)
 
 
-CLAUSE += '; the writer replaces the whole file (shared C01.R15)'
+CLAUSE += ' Also: the writer replaces the whole file (shared C01.R15).'
